@@ -229,6 +229,7 @@ func main() {
 	jobs := flag.Int("jobs", 6, "parallel evaluations")
 	opsF := flag.String("ops", "negate,swallow,delete,swap", "mutation operators")
 	out := flag.String("out", "", "write the JSON report here (default: stdout summary only)")
+	only := flag.String("only", "", "restrict the mutants to files whose path contains this string")
 	flag.Parse()
 	if *rlint == "" {
 		exe, _ := os.Executable()
@@ -260,6 +261,9 @@ func main() {
 	sort.Strings(files)
 	var all []*mutant
 	for _, f := range files {
+		if *only != "" && !strings.Contains(f, *only) {
+			continue
+		}
 		ms, err := generate(*repo, f, byFile[f], ops)
 		if err != nil {
 			fmt.Fprintln(os.Stderr, "skip", f, err)
